@@ -1,1 +1,35 @@
-From GV Require Import Base.Prelude.
+(* Properties/C08.v — attribute values survive print/parse; parsing is total.  Statements
+   only; every proof is `exact`.  The percent-quoting table is [gen_to_quote], regenerated from
+   /repo/gffutils/parser.py on every run. *)
+From GV Require Import Base.Prelude Base.PyStr Base.Utf8 Model.DB Model.Parser Model.Grammar Gen.GenConst
+  Proofs.GenConstEquiv Proofs.C08Proofs Proofs.C08Round.
+Open Scope N_scope.
+
+(* percent-encoding is inverted by unquote for EVERY string over all code points *)
+Theorem C08_quote_unquote : forall s, unquote (quote gen_to_quote s) = s.
+Proof. rewrite gen_to_quote_eq. exact l_quote_unquote. Qed.
+Print Assumptions C08_quote_unquote.
+
+(* encoded text never contains tab, newline, CR, ';', '=', ',' or '&': the printed attribute
+   column cannot break the nine-column line nor the attribute structure *)
+Theorem C08_quote_no_structural : forall s c, In c [TAB; 10; 13; SEMI; EQ; COMMA; 38] -> ~ In c (quote gen_to_quote s).
+Proof. rewrite gen_to_quote_eq. exact l_quote_no_structural. Qed.
+Print Assumptions C08_quote_no_structural.
+
+(* print -> parse is the identity on mappings, for all 24 GFF3-style dialects (three field
+   separators x trailing semicolon x '=' / ' ' x quoted x repeated keys) and ALL unicode values *)
+Theorem C08_roundtrip_gff3 : forall D m, gff3_style D = true -> mapping_ok m = true ->
+  split_with D (reconstruct gen_to_quote m D false false) = Ok m.
+Proof. rewrite gen_to_quote_eq. exact l_roundtrip_gff3. Qed.
+Print Assumptions C08_roundtrip_gff3.
+
+(* totality of the supplied-dialect path: no string makes it raise (for a dialect whose
+   separators are non-empty); the inference path [split_infer] is a total function whose only
+   partial primitive is taking the head of a split() result: *)
+Theorem C08_total_with : forall D s, wf_dialect D = true -> exists a, split_with D s = Ok a.
+Proof. exact l_split_with_total. Qed.
+Print Assumptions C08_total_with.
+
+Theorem C08_split_never_empty : forall sep s, exists k rest, split sep s = k :: rest.
+Proof. exact l_split_pieces_nonempty. Qed.
+Print Assumptions C08_split_never_empty.
